@@ -60,6 +60,14 @@ def storage_max_of(e: ast.AST) -> Optional[str]:
                 return x
         if U(f) == "dtype_info":
             return x
+    # (torch.finfo(X) if X.is_floating_point else torch.iinfo(X)).max
+    if isinstance(e, ast.Attribute) and e.attr in ("max", "min") and isinstance(e.value, ast.IfExp):
+        t, a, b = e.value.test, e.value.body, e.value.orelse
+        if isinstance(a, ast.Call) and isinstance(b, ast.Call) and len(a.args) == 1 and len(b.args) == 1 and U(a.args[0]) == U(b.args[0]):
+            x = U(a.args[0])
+            fa, fb = U(a.func), U(b.func)
+            if (U(t) == f"{x}.is_floating_point" and fa == "torch.finfo" and fb == "torch.iinfo") or (U(t) == f"not {x}.is_floating_point" and fa == "torch.iinfo" and fb == "torch.finfo"):
+                return x
     return None
 
 
@@ -73,6 +81,8 @@ def fold_dims(dim_expr: ast.AST, ndim: int, axis, base_name: str = "base"):
         if isinstance(e, ast.Name):
             if e.id in env:
                 return env[e.id]
+            if e.id == "None":
+                return None
             raise AnalysisError(f"dim expression: unknown name {e.id}")
         if isinstance(e, ast.Attribute):
             t = U(e)
